@@ -208,3 +208,43 @@ def run(ctx):
             tol = True
     ctx.ob('R19.5', 'read_chunk|UnexpectedEof while decoding a header ends the file', tol,
            'the Ok(None) result is produced in the Err arm of the header deserialization under io::ErrorKind::UnexpectedEof (a header cut short by a crash is the end of that file, not an error of the whole stream directory)', rc.loc(des[0]))
+
+    # ---- R19.5 (cont.) a writer file whose header cannot be read is skipped, it does not fail the directory
+    oo = prog.body(OL + 'OutputLog::open')
+    chk = oo.call_blocks(OL + 'OutputLog::check_header')
+    ctx.require(chk, 'R19.5: check_header call in OutputLog::open')
+    rk = sorted([k for k, d in scrutinees(oo, 'core::result::Result').items() if d['root'] == oo.term[chk[0]]['d'][0]], key=len)
+    ctx.require(rk, 'R19.5: result of check_header not matched')
+    ent_e, reg_e = oo.arm_entries('core::result::Result', {'Err'}, rk[0])
+    hs_o = loop_headers_containing(oo, chk[0])
+    rets_from_err = [r for r in oo.returns() if r in oo.reach_from(ent_e, avoid=hs_o[:1])]
+    ctx.ob('R19.5', 'OutputLog::open|unreadable header skips the file', bool(ent_e) and bool(hs_o) and not rets_from_err,
+           'every path from the Err arm of check_header goes on to the next file (a worker killed before its first flush leaves a 0-byte or cut .hqs file next to the files of other workers)', oo.loc(chk[0]))
+
+    # ---- R19.6 one piped channel is enough to stream
+    ctx.rule('R19.6', 'create_task_future takes the streaming branch when stdout OR stderr is piped: the non-streaming launch is reached only when neither channel is StdioDef::Pipe (with one piped channel in the non-streaming branch the pipe is never drained and no chunk or end marker is written)')
+    SD = [e for e in prog.enums if e.endswith('::StdioDef')]
+    ctx.require(len(SD) == 1, f'R19.6: StdioDef enum ({SD})')
+    SD = SD[0]
+    gsb = [bi for bi in top.call_blocks(lambda c: c.endswith(('StreamerRef::get_stream', 'Streamer::get_stream')))] if 'top' in dir() else []
+    ctf = cor(prog, PG + 'create_task_future')[0] if not gsb else top
+    gsb = gsb or ctf.call_blocks(lambda c: c.endswith(('StreamerRef::get_stream', 'Streamer::get_stream')))
+    ctx.require(gsb, 'R19.6: get_stream call in create_task_future')
+    hts = ctf.call_blocks(PG + 'handle_task_with_signals')
+    plain = [x for x in hts if x not in ctf.reach_from(gsb)]
+    ctx.require(plain, 'R19.6: non-streaming launch site')
+    keys = {nm: [k for k in scrutinees(ctf, SD) if nm in k] for nm in ('stdout', 'stderr')}
+    okp = True
+    obs = {}
+    for nm, ks in keys.items():
+        vs = set()
+        for k in ks:
+            v_ = variants_at(ctf, SD, plain[0], k)
+            vs = (vs | set(v_)) if v_ is not None else (vs | set(prog.variants(SD)))
+        if not ks:
+            vs = set(prog.variants(SD))
+        obs[nm] = sorted(vs)
+        if 'Pipe' in vs:
+            okp = False
+    ctx.ob('R19.6', 'create_task_future|non-streaming launch only without any pipe', okp, f'at the non-streaming launch neither channel can be Pipe (observed stdout {obs["stdout"]}, stderr {obs["stderr"]})', ctf.loc(plain[0]))
+
